@@ -69,17 +69,24 @@ func rawStaticCallee(c ssa.CallInstruction) *ssa.Function {
 
 // boundTarget maps a bound-method wrapper (x.m as a value) or a thunk to the method it calls.
 func boundTarget(f *ssa.Function) *ssa.Function {
-	if f == nil || f.Synthetic == "" || !(strings.Contains(f.Synthetic, "bound method") || strings.Contains(f.Synthetic, "thunk")) {
-		return f
-	}
-	for _, b := range f.Blocks {
-		for _, in := range b.Instrs {
-			if c, ok := in.(ssa.CallInstruction); ok && !c.Common().IsInvoke() {
-				if g, isF := c.Common().Value.(*ssa.Function); isF {
-					return g
+	for hops := 0; hops < 4; hops++ {
+		if f == nil || f.Synthetic == "" || !(strings.Contains(f.Synthetic, "bound method") || strings.Contains(f.Synthetic, "thunk") || strings.Contains(f.Synthetic, "instantiation wrapper")) {
+			return f
+		}
+		var next *ssa.Function
+		for _, b := range f.Blocks {
+			for _, in := range b.Instrs {
+				if c, ok := in.(ssa.CallInstruction); ok && !c.Common().IsInvoke() {
+					if g, isF := c.Common().Value.(*ssa.Function); isF && next == nil {
+						next = g
+					}
 				}
 			}
 		}
+		if next == nil {
+			return f
+		}
+		f = next
 	}
 	return f
 }
